@@ -25,6 +25,7 @@ import (
 var ErrMaxValueLenExceeded = "internal store max value length exceeded"
 var ErrMaxTxValuesLenExceeded = "max transaction values length exceeded"
 var ErrChunkTooSmall = fmt.Sprintf("minimum chunk size is %d", MinChunkSize)
+var ErrInvalidMessageLength = "invalid message length"
 var ErrRefOptNotImplemented = "reference operation is not implemented"
 var ErrUnableToReassembleExecAllMessage = "unable to reassemble ZAdd message on a streamExecAll"
 
